@@ -12,8 +12,9 @@
      "db"    a document in a database (cfg.ac = AllowConflicts, cfg.lim = revs_limit, 0 = never reached):
              PutChild (Put / DeleteDoc), PutHistD (PutExistingRevWithBody, request flag nc = noConflicts).
    Replicas (Reps) are independent copies fed by the same environment: order independence is an invariant
-   over two of them.  Impl* define the implementation variables, Ghost* the history variables; Trace_RevTree
-   reuses them.  Decides C04. *)
+   over two of them (Feed = TRUE: replica 1 is fed first, replica 2 then receives the same inputs - as revisions
+   with their ancestries - in an order of its own).  Impl* define the implementation variables, Ghost* the history
+   variables; Trace_RevTree reuses them.  Deviations from DESIGN 4.4 are listed in NOTES.md.  Decides C04. *)
 EXTENDS Integers, Sequences, FiniteSets, TLC
 
 CONSTANTS MaxGen, NDig,   \* revision universe
